@@ -189,7 +189,7 @@ func init() {
 		Bounds:      "three-file program (a includes base and t; 15 struct-likes, typedefs, enum, constant, base service across an include); the field type of one struct and the result and argument types of one method are choices among 10 spellings (quick: 3 x 4 x 10 of the 1000 combinations, thorough: all; local, include-qualified, through typedefs, inside list/set/map), presence of a throws clause, @preserve comment, preserve on/off, extends, and the method filter (none, qualified exact name, unqualified name) are free",
 		Assumptions: []string{"all dimensions are finite choice spaces enumerated through the solver (regexp2/regexp operands must be concrete)", "the yaml configuration lookup of TrimAST is bypassed (doTrimAST is the entry)", "'generates compiling code with the same wire behaviour' is outside this check"},
 		Harnesses: []Harness{
-			{Func: "H_C16_trim", Quick: tuples3(seq(0, 2), []int64{0, 3, 9}, []int64{0, 2, 4, 8}), Thorough: tuples3(seq(0, 2), seq(0, 9), seq(0, 9)), Covers: []string{"end"}},
+			{Func: "H_C16_trim", Quick: tuples3(seq(0, 5), []int64{0, 3, 9}, []int64{0, 2, 4, 8}), Thorough: tuples3(seq(0, 5), seq(0, 9), seq(0, 9)), Covers: []string{"end"}},
 		},
 	})
 	register(&Prop{
@@ -207,6 +207,7 @@ func init() {
 			{Func: "H_C14_digits", Quick: digitTuples(), Covers: []string{"accepted", "rejected"}},
 			{Func: "H_C14_field", Quick: rng(0, 1), Covers: []string{"in", "out"}},
 			{Func: "H_C14_index", Quick: rng(0, 1), Covers: []string{"end", "key"}},
+			{Func: "H_C14_query", Quick: tuples3(seq(0, 5), seq(0, 5), seq(0, 1)), Covers: []string{"end"}},
 		},
 	})
 }
